@@ -713,7 +713,7 @@ func genIdentities(c *GenCtx) []identPair {
 				dot = ""
 			}
 			amp := ee
-			p = identPair{x + "[*]" + dot + ee, "(" + x + "[*] && map(&" + amp + ", " + x + "[*])[?@ != `null`]) || " + x + "[*]" + dot + ee, doc}
+			p = identPair{x + "[*]" + dot + ee, "(" + x + "[*] && map(&" + amp + ", " + x + ")[?@ != `null`]) || " + x + "[*]" + dot + ee, doc}
 		case 2: // filter projection = unprojected | [*]
 			p = identPair{x + "[?a]" + e1, x + "[?a] | [*]" + e1, doc}
 		case 3: // flatten
